@@ -28,7 +28,7 @@ CLAIMED = {
     },
     "C03": {
         "technique": "Coq proof (structural case analysis of every operation + chunk disjointness invariant) + allocator-ledger correspondence",
-        "text": "C03_frees / C03_no_early_free / C03_held_disjoint_from_static: only reset and drop give blocks back, exactly the ones they should, each recorded with the layout it was requested with; held blocks are pairwise disjoint and disjoint from the static. " + ARENA_TEXT + "The tracking allocator's ledger (apply_frees, extracted) is checked on every run, under fault plans.",
+        "text": "C03_frees / C03_no_early_free / C03_held_disjoint_from_static: only reset and drop give blocks back, exactly the ones they should, each recorded with the layout it was requested with; held blocks are pairwise disjoint and disjoint from the static. Whole histories: C03_ledger (multiset conservation: held at start + obtained = freed + still held) / C03_all_returned_after_drop / C03_only_obtained_blocks_are_freed. " + ARENA_TEXT + "The tracking allocator's ledger (apply_frees, extracted) is checked on every run, under fault plans.",
         "design_ref": "DESIGN.md §6 C03",
     },
     "C06": {
